@@ -333,3 +333,33 @@ package identity
 //@ func (*Identity).AvatarUrl
 //@   requires [has-version] i != nil && len(i.versions) > 0 && i.versions[len(i.versions) - 1] != nil
 //@   modifies nothing
+
+// The two views of an identity's metadata (C09: what a version recorded is never rewritten): the mutable view
+// gives, for every key, the value of the last version that sets it.
+//@ func (*Identity).MutableMetadata
+//@   props C09
+//@   requires i != nil && (forall k int :: { i.versions[k] } 0 <= k && k < len(i.versions) ==> i.versions[k] != nil)
+//@   modifies nothing
+//@   ensures [last-version-wins] result != nil && fresh(result) && (forall k int :: { i.versions[k] } forall key string :: { (key in i.versions[k].metadata) } 0 <= k && k < len(i.versions) && i.versions[k].metadata != nil && (key in i.versions[k].metadata) && (forall j int :: { i.versions[j] } k < j && j < len(i.versions) ==> !(i.versions[j].metadata != nil && (key in i.versions[j].metadata))) ==> (key in result) && result[key] == i.versions[k].metadata[key])
+//@   loop 1
+//@     invariant metadata != nil && fresh(metadata)
+//@     invariant [m1] forall k int :: { i.versions[k] } forall key string :: { (key in i.versions[k].metadata) } 0 <= k && k <= rangeindex && i.versions[k].metadata != nil && (key in i.versions[k].metadata) && (forall j int :: { i.versions[j] } k < j && j <= rangeindex ==> !(i.versions[j].metadata != nil && (key in i.versions[j].metadata))) ==> (key in metadata) && metadata[key] == i.versions[k].metadata[key]
+//@   loop 2
+//@     invariant metadata != nil && fresh(metadata) && version == i.versions[rangeindex1 + 1] && version != nil
+//@     invariant [m2] forall key string :: { iterseen[key] } iterseen[key] ==> version.metadata != nil && (key in version.metadata) && (key in metadata) && metadata[key] == version.metadata[key]
+//@     invariant [m3] forall k int :: { i.versions[k] } forall key string :: { (key in i.versions[k].metadata) } 0 <= k && k <= rangeindex1 && !iterseen[key] && i.versions[k].metadata != nil && (key in i.versions[k].metadata) && (forall j int :: { i.versions[j] } k < j && j <= rangeindex1 ==> !(i.versions[j].metadata != nil && (key in i.versions[j].metadata))) ==> (key in metadata) && metadata[key] == i.versions[k].metadata[key]
+// ... and the immutable view the value of the first version that sets it: a later version cannot change it.
+//@ func (*Identity).ImmutableMetadata
+//@   props C09
+//@   requires i != nil && (forall k int :: { i.versions[k] } 0 <= k && k < len(i.versions) ==> i.versions[k] != nil)
+//@   modifies nothing
+//@   ensures [first-version-wins] result != nil && fresh(result) && (forall k int :: { i.versions[k] } forall key string :: { (key in i.versions[k].metadata) } 0 <= k && k < len(i.versions) && i.versions[k].metadata != nil && (key in i.versions[k].metadata) && (forall j int :: { i.versions[j] } 0 <= j && j < k ==> !(i.versions[j].metadata != nil && (key in i.versions[j].metadata))) ==> (key in result) && result[key] == i.versions[k].metadata[key])
+//@   loop 1
+//@     invariant metadata != nil && fresh(metadata)
+//@     invariant [i1] forall k int :: { i.versions[k] } forall key string :: { (key in i.versions[k].metadata) } 0 <= k && k <= rangeindex && i.versions[k].metadata != nil && (key in i.versions[k].metadata) && (forall j int :: { i.versions[j] } 0 <= j && j < k ==> !(i.versions[j].metadata != nil && (key in i.versions[j].metadata))) ==> (key in metadata) && metadata[key] == i.versions[k].metadata[key]
+//@     invariant [i2] forall key string :: { (key in metadata) } (key in metadata) ==> (exists k int :: { i.versions[k] } 0 <= k && k <= rangeindex && i.versions[k].metadata != nil && (key in i.versions[k].metadata))
+//@   loop 2
+//@     invariant metadata != nil && fresh(metadata) && version == i.versions[rangeindex1 + 1] && version != nil
+//@     invariant [j1] forall k int :: { i.versions[k] } forall key string :: { (key in i.versions[k].metadata) } 0 <= k && k <= rangeindex1 && i.versions[k].metadata != nil && (key in i.versions[k].metadata) && (forall j int :: { i.versions[j] } 0 <= j && j < k ==> !(i.versions[j].metadata != nil && (key in i.versions[j].metadata))) ==> (key in metadata) && metadata[key] == i.versions[k].metadata[key]
+//@     invariant [j2] forall key string :: { iterseen[key] } iterseen[key] && (forall j int :: { i.versions[j] } 0 <= j && j <= rangeindex1 ==> !(i.versions[j].metadata != nil && (key in i.versions[j].metadata))) ==> (key in metadata) && metadata[key] == version.metadata[key]
+//@     invariant [j3] forall key string :: { (key in metadata) } (key in metadata) ==> (exists k int :: { i.versions[k] } 0 <= k && k <= rangeindex1 && i.versions[k].metadata != nil && (key in i.versions[k].metadata)) || (iterseen[key] && version.metadata != nil && (key in version.metadata))
